@@ -7,7 +7,7 @@
    same lists is NOT a theorem here -- it is what the correspondence check of this property tests
    on the real code generator, variant against variant and against the model. *)
 From Coq Require Import List NArith Bool.
-From HV Require Import Dfir.Model Dfir.ModelRealise Dfir.POps Dfir.PRealise.
+From HV Require Import Dfir.Model Dfir.ModelTick Dfir.ModelFlat Dfir.ModelRealise Dfir.POps Dfir.PRealise Dfir.PFlatCheck.
 Import ListNotations.
 
 Theorem C22_perturbation_operators :
@@ -73,6 +73,23 @@ Proof.
   - rewrite fold_vec_push. reflexivity.
 Qed.
 Print Assumptions C22_realisation_is_model.
+
+(* (ii) subgraph shape: two partitions of the same flat graph (same operators in the same order,
+   split into blocks by handoffs in any well-formed way) compute the same sink outputs, operator
+   states and tick counts over every history *)
+Theorem C22_partition_shape : forall p1 p2 h,
+  flat_applicable p1 = true -> flat_applicable p2 = true -> flat_of p1 = flat_of p2 ->
+  w_out (fst (drive false p1 h)) = w_out (fst (drive false p2 h)) /\
+  w_st (fst (drive false p1 h)) = w_st (fst (drive false p2 h)) /\
+  snd (drive false p1 h) = snd (drive false p2 h).
+Proof.
+  intros p1 p2 h H1 H2 E.
+  pose proof (transparency p1 h H1) as T1. pose proof (transparency p2 h H2) as T2. rewrite E in T1.
+  destruct (drive false p1 h) as [w1 o1]. destruct (drive false p2 h) as [w2 o2].
+  destruct (drive false (flat_of p2) h) as [wf of]. cbn [fst snd].
+  destruct T1 as [A1 [A2 [_ A4]]]. destruct T2 as [B1 [B2 [_ B4]]]. repeat split; congruence.
+Qed.
+Print Assumptions C22_partition_shape.
 
 Example C22_example :
   run_op (op_union 2) [[[VN 1; VN 2]; []]; [[VN 3]; []]] = [[[VN 1; VN 2]]; [[VN 3]]].
